@@ -21,7 +21,12 @@ RULE = ("seeded generator of in-memory SMMapSets: 1..3 charts sharing one tempo 
         "count, objects of every kind (hits holds rolls mines lifts fakes keysounds) on the snap grid with denominators "
         "1..96 incl. measures needing more than 384 rows, leading and inner empty measures, selectable both ways; "
         "histories: built from objects, SMMapSet.read of a generated text, OsuToSM / QuaToSM / BMSToSM / O2JToSM of small "
-        "source maps built from objects, and SMMapSet.rate after any of these; non-trivial = at least 3 objects or 2 tempo "
+        "source maps built from objects, and SMMapSet.rate after any of these; over a third of the cases (every history, every chart "
+        "type) reach the checked write() as a RE-USED object: the mapset is first built or obtained with other tempo values, offsets "
+        "and note times, written once and/or asked for BpmList.to_timing_map(), and then given its final values through the in-place "
+        "column setters (bpms.offset, bpms.bpm, every note list's offset, hold lengths, ms.offset: replacement, += shift, *= tempo "
+        "factor) - the text is judged against the final in-memory state, of which the model is a function; a quarter of all cases call the file-level wrapper SMMapSet.write_file(path) and the "
+        "bytes found on disk are judged instead of the string returned by write(); non-trivial = at least 3 objects or 2 tempo "
         "changes or 2 charts; distinct by hash of the case")
 ASSUMPTIONS = [
     "binary64 rounding inside the writer (np.float64 divisions in Snap.from_offset, offset*0.001) is not modelled: inputs lie on the "
@@ -255,6 +260,20 @@ def generate(rng, tier):
         if rng.random() < 0.16:
             case["rate"] = G.fj(rng.choice([0.5, 2.0, 1.5, 0.75, 1.25, 1.1]))
             case["dom"] = None if case["dom"] is None else True
+        if rng.random() < 0.36:
+            # an earlier life of the object: it was written (and/or asked for its timing map) with OTHER tempo values, offsets
+            # and note times, which were then replaced through the in-place column setters; the checked write() sees the
+            # final state only, and so does the model
+            pre = rng.choice(["write", "tm", "both", "write"])
+            if case["via"] == "direct":
+                case["hist"] = {"op": "decoy", "pre": pre, "d": rng.choice([100.0, -250.0, 37.5, 1000.0]),
+                                "k": rng.choice([1.25, 0.5, 2.0, 1.0]), "dn": rng.choice([0.0, 100.0, -62.5])}
+            elif rng.random() < 0.6:
+                case["hist"] = {"op": "shift", "pre": pre, "d": rng.choice([100.0, -250.0, 37.5, 1000.0])}
+            else:
+                case["hist"] = {"op": "scale", "pre": pre, "k": rng.choice([2.0, 0.5])}
+        if rng.random() < 0.25:
+            case["file"] = True           # through the file-level wrapper SMMapSet.write_file(path)
         cases.append(case)
     return cases
 
@@ -264,13 +283,78 @@ def _fl(p):
     return float(Fr(p[0], p[1]))
 
 
+def _warm(ms, pre):
+    """The earlier use of the object: one write() and/or a timing map per tempo list (whatever they return or raise)."""
+    if pre in ("tm", "both"):
+        for m in ms.maps:
+            try:
+                m.bpms.to_timing_map()
+            except EXC:
+                pass
+    if pre in ("write", "both"):
+        try:
+            ms.write()
+        except EXC:
+            pass
+
+
+def _set_col(lst, name, values):
+    """In-place column assignment through the list's own setter (keeps the list and its frame)."""
+    import numpy as np
+    if len(lst):
+        setattr(lst, name, np.asarray(values, dtype=float))
+
+
 def _build(case):
+    h = case.get("hist")
+    if not h:
+        return _build0(case, None)
+    if h["op"] == "decoy":
+        ms = _build0(case, h)        # built with the decoy values
+        _warm(ms, h["pre"])
+        s = case["set"]
+        ms.offset = _fl(s["offset"])
+        for m, c in zip(ms.maps, s["maps"]):
+            _set_col(m.bpms, "offset", [_fl(o) for o, _ in s["bpms"]])
+            _set_col(m.bpms, "bpm", [_fl(b) for _, b in s["bpms"]])
+            for k in G.SIMPLE + G.HOLDS:
+                _set_col(getattr(m, k), "offset", [_fl(x[0]) for x in c[k]])
+        return ms
+    ms = _build0(case, None)
+    _warm(ms, h["pre"])
+    t0 = float(ms.offset)
+    for m in ms.maps:
+        lists = [m.bpms] + [getattr(m, k) for k in G.SIMPLE + G.HOLDS]
+        if h["op"] == "shift":
+            for l in lists:
+                if len(l):
+                    l.offset += h["d"]
+        else:                        # twice / half the tempo: every time moves towards / away from the first tempo point
+            k = h["k"]
+            if len(m.bpms):
+                m.bpms.bpm *= k
+            for l in lists:
+                if len(l):
+                    l.offset = t0 + (l.offset - t0) / k
+            for l in (m.holds, m.rolls):
+                if len(l):
+                    l.length /= k
+    if h["op"] == "shift":
+        ms.offset = t0 + h["d"]
+    return ms
+
+
+def _build0(case, decoy):
     from reamber.sm.SMMapSet import SMMapSet
     via = case["via"]
     if via == "read":
         return SMMapSet.read(case["text"])
     s = case["set"]
     bp = [(_fl(o), _fl(b)) for o, b in s["bpms"]]
+    dn = 0.0
+    if decoy:
+        bp = [(o + decoy["d"], b * decoy["k"]) for o, b in bp]
+        dn = decoy["dn"]
     if via == "direct":
         from reamber.sm.SMMap import SMMap
         from reamber.sm.SMBpm import SMBpm
@@ -282,7 +366,7 @@ def _build(case):
         ms = SMMapSet()
         for f in G.TEXT_FIELDS:
             setattr(ms, f, s[f])
-        ms.offset, ms.sample_start, ms.sample_length = _fl(s["offset"]), _fl(s["sample_start"]), _fl(s["sample_length"])
+        ms.offset, ms.sample_start, ms.sample_length = _fl(s["offset"]) + (decoy["d"] if decoy else 0.0), _fl(s["sample_start"]), _fl(s["sample_length"])
         ms.selectable = s["selectable"]
         maps = []
         for c in s["maps"]:
@@ -291,9 +375,9 @@ def _build(case):
             m.groove_radar = [_fl(x) for x in c["groove_radar"]]
             m.bpms = SMBpmList([SMBpm(offset=o, bpm=b) for o, b in bp])
             for k in G.SIMPLE:
-                setattr(m, k, cls[k].from_dict([dict(offset=_fl(o), column=col) for o, col in c[k]]))
+                setattr(m, k, cls[k].from_dict([dict(offset=_fl(o) + dn, column=col) for o, col in c[k]]))
             for k in G.HOLDS:
-                setattr(m, k, cls[k].from_dict([dict(offset=_fl(o), column=col, length=_fl(n)) for o, col, n in c[k]]))
+                setattr(m, k, cls[k].from_dict([dict(offset=_fl(o) + dn, column=col, length=_fl(n)) for o, col, n in c[k]]))
             maps.append(m)
         ms.maps = maps
         return ms
@@ -372,7 +456,15 @@ def execute(case):
     if any(c["n_stops"] for c in out["ms"]["maps"]):
         raise ValueError("generated mapset has stops")
     try:
-        text = ms.write()
+        if case.get("file"):
+            import os, tempfile
+            with tempfile.TemporaryDirectory() as d:
+                path = os.path.join(d, "case.sm")
+                ms.write_file(path)
+                with open(path, "rb") as f:          # the bytes on disk, no newline translation on the way in
+                    text = f.read().decode("utf8")
+        else:
+            text = ms.write()
     except EXC as e:
         out.update(v=None, exc=type(e).__name__ + ": " + str(e)[:120])
         return out
@@ -541,7 +633,7 @@ def nontrivial(case, out):
 
 def bucket(case, out):
     ms = out.get("ms") or {"maps": []}
-    k = f"via={case['via']}" + ("+rate" if "rate" in case else "")
+    k = f"via={case['via']}" + ("+rate" if "rate" in case else "") + ("+hist:" + case["hist"]["op"] if "hist" in case else "") + ("+file" if case.get("file") else "")
     k += f"/charts={len(ms['maps'])}"
     if ms["maps"]:
         k += f"/tempo={len(ms['maps'][0]['bpms'])}"
@@ -552,7 +644,7 @@ def bucket(case, out):
 
 def describe(case, out):
     ms = out.get("ms") or {"maps": []}
-    return (f"write via={case['via']} rate={case.get('rate')} charts={[c['chart_type'] for c in ms['maps']]} objects={_n_objs(ms) if ms['maps'] else 0} "
+    return (f"write{'_file' if case.get('file') else ''} via={case['via']} hist={case.get('hist')} rate={case.get('rate')} charts={[c['chart_type'] for c in ms['maps']]} objects={_n_objs(ms) if ms['maps'] else 0} "
             f"selectable={ms.get('selectable')} -> {'exception ' + out.get('exc', '') if out.get('v') is None else str(len(out['v'])) + ' chars'}")
 
 
@@ -563,6 +655,12 @@ def shrink(case):
 
 
 def _shrink_all(case):
+    if case.get("file"):
+        c = dict(case); del c["file"]; yield c
+    if "hist" in case:
+        c = dict(case); del c["hist"]; yield c
+        if case["hist"]["pre"] != "tm":
+            c = dict(case); c["hist"] = dict(case["hist"], pre="tm"); yield c
     if case["via"] == "read":
         lines = case["text"].split("\n")
         for i in range(len(lines)):
